@@ -1322,7 +1322,7 @@ def run(chk):
     pre = ("From Coq Require Import List ZArith NArith QArith Bool String.\nImport ListNotations.\n"
            "From DA Require Import Base.Cases Model.PyExpr Model.ExprPrint Model.ExprParse Model.ExprSem Model.ExprParseCases.\n"
            "Local Close Scope Q_scope.\nLocal Open Scope string_scope.\nLocal Open Scope list_scope.\n"
-           "Definition the_cfg := mkcfg %s %s.\n" % (clist([cstr(n) for n in known]), cbool(reject_chains)))
+           "Definition the_cfg := mkcfg %s.\n" % clist([cstr(n) for n in known]))
     phase["build_cases"] = round(time.time() - t0, 1)
     t0 = time.time()
     failing, errors, nchecked = lib.run_case_files("C13", pre, terms, "check_cases the_cfg", per_file=PER_FILE, timeout=1500)
